@@ -39,11 +39,33 @@ def replay(r):
         cases.append((r["x"], r["refs"]))
     for _ in range(30):
         cases.append(([rnd.choice(seqs) for _ in range(r.get("B", 1))], [[rnd.choice(seqs) for _ in range(ns)] for _ in range(r.get("B", 1))]))
+    if r.get("ref_values"):
+        # references that are not one-hot: all-zero columns, uniform columns, arbitrary profiles
+        g_ = torch.Generator().manual_seed(2)
+        cases = [(r["x"], torch.tensor([[[[float(Fraction(v)) for v in row] for row in ref] for ref in ex] for ex in r["ref_values"]], dtype=torch.float64))]
+        for _ in range(10):
+            Bq = r.get("B", 1)
+            soft = torch.rand(Bq, ns, A, L, generator=g_, dtype=torch.float64)
+            soft[:, 0] = 0.0
+            if ns > 1:
+                soft[:, 1] = 1.0 / A
+            cases.append(([rnd.choice(seqs) for _ in range(Bq)], soft))
     for act in acts:
         model = dl.real_model(arch, A, L, seed=r.get("seed", 1), act_override=act)
+        if r.get("history_ops"):
+            # an earlier call (another model) that overrides the rule of a built-in activation must not change later calls
+            other = dl.real_model(arch, A, L, seed=9, act_override=act)
+            act_cls = [type(m_) for m_ in other if not isinstance(m_, (torch.nn.Linear, torch.nn.Conv1d, torch.nn.Flatten, torch.nn.AvgPool1d, torch.nn.MaxPool1d))][0]
+            with warnings.catch_warnings():
+                warnings.simplefilter("ignore")
+                x0, refs0 = cases[0]
+                deep_lift_shap(other, C.real_onehot(x0, A).double(), references=C.real_onehot(refs0, A).double(), target=target, device="cpu",
+                               additional_nonlinear_ops={act_cls: (lambda mod, gi, go: gi)})
         for x, refs in cases:
             X = C.real_onehot(x, A).double()
-            R = C.real_onehot(refs, A).double()
+            R = refs if isinstance(refs, torch.Tensor) else C.real_onehot(refs, A).double()
+            if isinstance(refs, torch.Tensor):
+                refs = refs.tolist()
             with warnings.catch_warnings(record=True) as wlist:
                 warnings.simplefilter("always")
                 try:
@@ -168,7 +190,15 @@ def worker(cfg):
             net = dl.build(arch, A, L, seed=cfg.get("seed", 1), symbolic_weights=cfg.get("symw", False), NN=NN)
             xc, X, rc, R = dl.sym_inputs(ctx, A, L, B, ns, concrete=(cfg["x"], cfg["refs"]) if cfg.get("x") is not None else None)
             rp = lambda m: dict(cfg, x=(cfg["x"] if cfg.get("x") is not None else C.eval_chars(m, xc)), refs=(cfg["refs"] if cfg.get("x") is not None else C.eval_chars(m, rc)))
+            if cfg.get("ref_values"):
+                # the reference set need not be one-hot (all-zero, uniform or arbitrary profiles)
+                R = T.Tensor(np.array([[[[Fraction(v) for v in row] for row in ref] for ref in ex] for ex in cfg["ref_values"]], dtype=object), dtype=dl.FLOAT[0])
             try:
+                if cfg.get("history_ops"):
+                    other = dl.build(arch, A, L, seed=9, NN=NN)
+                    act_cls = [type(m_) for m_ in other._modules.values() if type(m_).__name__ in nn.ACT_NAMES][0]
+                    dls.deep_lift_shap(other, X, references=R, target=target, device="cpu", additional_nonlinear_ops={act_cls: (lambda mod, gi, go: gi)})
+                    ctx.state["deferred_any"] = []
                 extra = {"n_shuffles": cfg["n_shuffles_arg"]} if cfg.get("n_shuffles_arg") else {}      # ignored for a reference tensor
                 mult = dls.deep_lift_shap(net, X, references=R, target=target, batch_size=cfg.get("batch_size", 32), device="cpu", raw_outputs=True, **extra)
                 deferred = list(ctx.state.get("deferred_any", []))
@@ -266,9 +296,15 @@ def configs(tier):
         pairs = [(a, b) for a in seqs for b in seqs]
         return [dict(kind="e2e", arch=arch, A=A, L=L, B=1, ns=1, target=(k % 2), x=[a], refs=[[b]]) for k, (a, b) in enumerate(pairs) if k % every == 0]
     # depth 2-3 end to end: sequences enumerated, activations uninterpreted
+    half = "1/2"
+    cf += [dict(kind="e2e", arch="dense1", A=2, L=2, B=1, ns=2, target=0, x=[[0, 1]], refs=[[[0, 0], [0, 0]]], ref_values=[[[[0, 0], [0, 0]], [[half, half], [half, half]]]]),
+           dict(kind="e2e", arch="conv", A=2, L=2, B=1, ns=1, target=1, x=[[1, 0]], refs=[[[0, 0]]], ref_values=[[[["1/4", 0], ["3/4", 0]]]]),
+           dict(kind="e2e", arch="dense1", A=2, L=2, B=1, ns=1, target=1, history_ops=True),
+           dict(kind="e2e", arch="dense2", A=2, L=2, B=1, ns=1, target=0, x=[[0, 1]], refs=[[[1, 0]]], history_ops=True)]
     cf += deep("dense2", 2, 2, 2 if q else 1)
+    cf += deep("dense3", 2, 2, 5 if q else 1)
     if not q:
-        cf += deep("dense3", 2, 2, 1) + deep("conv2", 2, 4, 5) + deep("convmax", 2, 3, 2)
+        cf += deep("conv2", 2, 4, 5) + deep("convmax", 2, 3, 2)
     if not q:
         cf += [dict(kind="lemma_nonlinear", n=4), dict(kind="lemma_maxpool", C=2, L=4, K=2), dict(kind="lemma_maxpool", C=1, L=6, K=3),
                dict(kind="e2e", arch="dense1", A=2, L=3, B=1, ns=1, target=1), dict(kind="e2e", arch="dense1w", A=2, L=3, B=1, ns=1, target=0),
